@@ -1,5 +1,5 @@
 (* Proofs/DerP.v — lemmas about Model/Der.v (C10). *)
-From PV Require Import Base.Bytes Base.Outcome Model.Der Spec.DerStrictSpec.
+From PV Require Import Base.Bytes Base.Outcome Model.Der Spec.DerStrictSpec Gen.GenCurveC10.
 From Coq Require Import ZifyBool ZifyNat ZifyN.
 Local Open Scope N_scope.
 
@@ -584,3 +584,56 @@ Proof.
   rewrite app_length.
   cbn [app] in *. rewrite <- app_assoc. cbn [app]. exact HB.
 Qed.
+
+(* ---- statements as they appear in Props/C10.v ---------------------------------------------------- *)
+Definition der_statement : Prop :=
+  forall (r s : Z) (broken : bool), (0 <= r)%Z -> (0 <= s)%Z ->
+  exists sig, sigencode_der r s = Ret sig /\ sigdecode_der sig broken = Ret (r, s).
+
+(* exclusion predicate of finding der-integer-length-128: an integer whose DER content needs 128
+   bytes or more (2^1015 and up) *)
+Definition der_oversize (r s : Z) : Prop := (2 ^ 1015 <= r)%Z \/ (2 ^ 1015 <= s)%Z.
+
+Lemma der_statement_refuted : ~ der_statement.
+Proof.
+  intros H. destruct (H (2 ^ 1015)%Z 1%Z true) as (sig & E1 & E2); [apply Z.leb_le; reflexivity|lia|].
+  destruct der_roundtrip_fails_at_2_1015 as (sig' & E1' & E2' & _).
+  rewrite E1 in E1'. injection E1' as <-. rewrite E2 in E2'. discriminate.
+Qed.
+
+Lemma der_roundtrip_partial (r s : Z) (broken : bool) :
+  (0 <= r)%Z -> (0 <= s)%Z -> ~ der_oversize r s ->
+  exists sig, sigencode_der r s = Ret sig /\ sigdecode_der sig broken = Ret (r, s).
+Proof.
+  intros Hr Hs Hex. unfold der_oversize in Hex. apply der_roundtrip; lia.
+Qed.
+
+Lemma der_of_lows (n r s : Z) (ht : byte) :
+  (n < 2 ^ 256)%Z -> (1 <= r < n)%Z -> (1 <= s <= n / 2)%Z ->
+  exists sig, sigencode_der r s = Ret sig /\ bip66_valid (sig ++ [ht]) = true /\
+    sigdecode_der sig false = Ret (r, s) /\ (s <= n / 2)%Z.
+Proof.
+  intros Hn Hr Hs.
+  assert (Hs2 : (s < 2 ^ 256)%Z).
+  { assert (n / 2 <= n)%Z by (apply Z.div_le_upper_bound; lia). lia. }
+  destruct (der_bip66 r s ht) as (sig & E1 & E2); [lia|lia|].
+  assert (H1015 : (2 ^ 256 < 2 ^ 1015)%Z) by reflexivity.
+  destruct (der_roundtrip r s false) as (sig' & E1' & E3); [lia|lia|].
+  rewrite E1 in E1'. injection E1' as <-.
+  exists sig. repeat split; try assumption; lia.
+Qed.
+
+Lemma der_long_form_example :
+  (0 <= 2 ^ 1015 - 1)%Z /\ (0 <= 2 ^ 1000)%Z /\ ~ der_oversize (2 ^ 1015 - 1) (2 ^ 1000) /\
+  (exists sig, sigencode_der (2 ^ 1015 - 1) (2 ^ 1000) = Ret sig /\ (255 < length sig)%nat).
+Proof.
+  split; [apply Z.leb_le; reflexivity|]. split; [apply Z.leb_le; reflexivity|]. split.
+  - unfold der_oversize. intros [H|H]; apply Z.leb_le in H; revert H; vm_compute; discriminate.
+  - eexists. split; [vm_compute; reflexivity|]. apply Nat.ltb_lt. vm_compute. reflexivity.
+Qed.
+
+Lemma der_lows_k1_example :
+  match sigencode_der (k1_n - 1) (k1_n / 2) with
+  | Ret sig => bip66_valid (sig ++ [x01]) = true /\ length sig = 71%nat
+  | _ => False end.
+Proof. vm_compute. split; reflexivity. Qed.
